@@ -38,7 +38,8 @@ theorem empty_version_is_empty (b : Bucket) : openOnly F b [] = some [] := by
 theorem version_facts :
     F.nameIsHashOfStoredBytes = true ∧ F.historicCond = "opts.OnlyVersions != nil" ∧
     F.historicFailsOnMissing = true ∧ F.historicLoadsFrom = ["current", "merged"] ∧
-    F.loadErrorSkipCond = "errors.As(err, &ae) && ae.Code() == s3.ErrCodeNoSuchKey && skipUnreadable" := by
+    F.loadErrorSkipCond = "errors.As(err, &ae) && ae.Code() == s3.ErrCodeNoSuchKey && skipUnreadable" ∧
+    F.emptyVersionForgotten = true := by
   decide
 
 end S3db.Props.C11
